@@ -261,6 +261,17 @@ func packetLevel(c *mon.Ctx, r *gen.Rand, h *ref.PES, b []byte, hdrEnd int) {
 	// 1. PUSI set, intact start code
 	p := carry(r, b, true)
 	snap := p
+	if r.Chance(6) {
+		// the unit starts seen on this PID before were not PES starts (sections, a stream that was scrambled until
+		// now): what a packet is does not depend on what came before it on its PID
+		for k := 4 + r.Intn(6); k > 0; k-- {
+			o := ref.PaddedPacket(int(p[1]&0x1f)<<8|int(p[2]), k&15, true, append([]byte{0x00, byte(r.Intn(256)) | 0x02, 0xb0}, r.Bytes(20)...))
+			op := packet.Packet(o)
+			pes.AlignedPUSI(&op)
+			packet.PESHeader(&op)
+		}
+		c.Count("packet.after_unit_starts_on_the_same_pid_that_were_not_pes")
+	}
 	if p[3]&0x20 != 0 && p[4] > 0 && p[5]&0x03 == 0x03 {
 		c.Count("packet.pes_start_behind_private_data_and_extension")
 	}
